@@ -356,10 +356,20 @@ package keeper
 //@   inline
 //@ func Keeper.IterateWrkChainBlockHashesReverse(ctx, wrkchainID, cb)
 //@   inline
+// The registrations as listed for the genesis export: every stored registration exactly once, in ascending id order,
+// decoded as stored (requires that a registration is stored under its own id, part of WRK_INV).
 //@ func Keeper.GetAllWrkChains(ctx) (wrkChains)
 //@   props C15
 //@   pure
-//@   loop IterateWrkChains.0: invariant it_store == wrk_store && wrk_store == old(wrk_store)
+//@   requires forall i int :: {wrk_store[kWrkChain(i)]} wcHas(wrk_store, i) ==> 0 <= i && i < 2^64 && wcGet(wrk_store, i).WrkchainId == i
+//@   ensures @ascending forall i int, j int :: {wrkChains[i], wrkChains[j]} 0 <= i && i < j && j < len(wrkChains) ==> wrkChains[i].WrkchainId < wrkChains[j].WrkchainId
+//@   ensures @as_stored forall j int :: {wrkChains[j]} 0 <= j && j < len(wrkChains) ==> wcHas(wrk_store, wrkChains[j].WrkchainId) && wrkChains[j] == wcGet(wrk_store, wrkChains[j].WrkchainId)
+//@   ensures @all_stored forall x uint64 :: {wrk_store[kWrkChain(x)]} wcHas(wrk_store, x) ==> exists j int :: 0 <= j && j < len(wrkChains) && wrkChains[j].WrkchainId == x
+//@   loop IterateWrkChains.0: invariant it_store == wrk_store && wrk_store == old(wrk_store) && len(wrkChains) >= 0
+//@   loop IterateWrkChains.0: invariant it_valid ==> wcHas(wrk_store, wrkChainKeyId(it_key)) && it_key == kWrkChain(wrkChainKeyId(it_key))
+//@   loop IterateWrkChains.0: invariant forall i int, j int :: {wrkChains[i], wrkChains[j]} 0 <= i && i < j && j < len(wrkChains) ==> wrkChains[i].WrkchainId < wrkChains[j].WrkchainId
+//@   loop IterateWrkChains.0: invariant forall j int :: {wrkChains[j]} 0 <= j && j < len(wrkChains) ==> wcHas(wrk_store, wrkChains[j].WrkchainId) && wrkChains[j] == wcGet(wrk_store, wrkChains[j].WrkchainId) && (it_valid ==> wrkChains[j].WrkchainId < wrkChainKeyId(it_key))
+//@   loop IterateWrkChains.0: invariant forall x uint64 :: {wrk_store[kWrkChain(x)]} wcHas(wrk_store, x) && (!it_valid || x < wrkChainKeyId(it_key)) ==> exists j int :: 0 <= j && j < len(wrkChains) && wrkChains[j].WrkchainId == x
 // The record listing of the genesis export (C15): the newest 20,000 records of the registration (all of them when there
 // are fewer), in ascending height order, each in its genesis form exactly as stored, and without gaps - every stored
 // record at or above the lowest exported height is in the list.
